@@ -36,20 +36,26 @@ from ..lib.common import Ctx, MachineryError, repo_python_path
 
 MANIFEST = {
     "engine": "E10a-Cli",
-    "technique": "Lean 4 proof over a model of _cli.py/_add_signature_parameter (all signatures, all given-value assignments, all component bodies) "
-                 "+ differential correspondence of parser structure and call log with the real auto_cli on generated modules + independent call-log oracle",
+    "technique": "Lean 4 proof over a model of _cli.py/_add_signature_parameter (all signatures, all given-value assignments, all component bodies, "
+                 "all dicts of components) + regenerated literals of _run_component + differential correspondence of parser structure and call log "
+                 "with the real auto_cli on generated modules + independent call-log oracle",
     "text": "Theorems in lean/Jap/Props/C12.lean prove that the model of auto_cli logs exactly one call of the selected function with every parameter "
-            "bound to the given value or else the signature default and returns that call's value (C12_binding), that a class gets one construction "
-            "with only the constructor's parameters and one call of the chosen method with only its own (C12_class, C12_class_plain), that a missing "
-            "required parameter is an error without any call (C12_required, C12_class_required) and that Optional parameters without default are options "
-            "defaulting to None (C12_optional_none*). The model is tied to /repo by building real modules from generated signatures and comparing, for "
-            "every case, the parser auto_cli constructs and the recorded calls / return value / error class with the model; the property is also "
-            "evaluated directly on the real code against an expectation computed from the signature alone.",
-    "level_note": "Trusted: Lean kernel; axioms propext/Quot.sound/Classical.choice only; the correspondence harness and its generators; the parse of "
-                  "one parser is abstract in the model (argparse/type conversion are the subject of C02/C04/C05) and tied by correspondence only. The full "
-                  "statement is false for parameters named like the CLI's own keys (open finding C12-reserved-names, negation proved on a witness) and is "
-                  "proved under the decidable guard noReserved. Outside the model: argparse abbreviation matching (open finding "
-                  "C12-prefix-of-parent-options), docstrings, coroutines, properties, positional-only parameters, untyped parameters.",
+            "bound to the given value or else the signature default and returns that call's value (C12_binding; C12_runs: it does run whenever the "
+            "required parameters are given), that a class gets one construction with only the constructor's parameters and one call of the chosen "
+            "method with only its own (C12_class, C12_class_plain), that a missing required parameter is an error without any call (C12_required, "
+            "C12_class_required), that Optional parameters without default are options defaulting to None (C12_optional_none*), and that for every "
+            "list / nested dict of components the subcommand chain leads to exactly the selected component (C12_dispatch, C12_tree_*). The model is "
+            "tied to /repo by regenerating the keys popped by _run_component and the CLI's own options into Gen/CliTables (pinned by "
+            "C12_tables_pinned), by building real modules from generated signatures and comparing, for every case, the parser auto_cli constructs "
+            "and the recorded calls / return value / error class with the model; the property is also evaluated directly on the real code against "
+            "an expectation computed from the signature alone.",
+    "level_note": "Trusted: Lean kernel; axioms propext/Quot.sound/Classical.choice only; the extractor; the correspondence harness and its generators; "
+                  "the parse of one parser is abstract in the model (argparse/type conversion are the subject of C02/C04/C05) and tied by "
+                  "correspondence only. The full statement is false for parameters named like the CLI's own keys (open finding C12-reserved-names, "
+                  "negation proved: C12_binding_needs_guard) and is proved under the decidable guard noReserved. Further open findings reproduced by "
+                  "the model: C12-subcommand-name-is-parent-dest, C12-private-optional. Outside the model: argparse abbreviation matching (open "
+                  "finding C12-prefix-of-parent-options), docstrings, coroutines, properties, positional-only parameters, untyped parameters, "
+                  "a constructor parameter called `subcommand` of a class with methods (type-dependent).",
 }
 
 F_RESERVED = "C12-reserved-names"
@@ -713,8 +719,6 @@ def finding_classes(case):
         for p in named(sig):
             if p["name"] in ("help", "print_config") or (p["name"] == "config" and where == "top"):
                 out.add(F_RESERVED)          # construction error, whichever component is selected
-            if p["name"].startswith("_") and p["type"] == "optint" and p["default"] is None:
-                pass
     if any(p["name"] == "subcommand" for p in named(top_sig)):
         out.add(F_RESERVED)
     for p in named(top_sig):
@@ -892,8 +896,6 @@ def run_cases(ctx: Ctx, cases, origin, tmp, wide=False):
                 a2, r2 = evaluate(small, tmp)
                 ctx.violation("auto_cli does not call the component with the parsed values: %s" % (oracle_deviation(small, r2) or dev),
                               {"kind": "case", "origin": origin, "case": small, "argv": a2, "module": tree_src(small["tree"]), "observed": r2})
-        elif wide and not fc and real["kind"] == "ok":
-            pass
         # correspondence (the abbreviation-matching finding is outside the model)
         init_subcommand = sel["kind"] == "cls" and sel["methods"] and any(p["name"] == "subcommand" for p in named(sel["init"]))
         if model is not None and F_PREFIX not in fc and not init_subcommand:
@@ -906,6 +908,42 @@ def run_cases(ctx: Ctx, cases, origin, tmp, wide=False):
                     ctx.tie_break("correspondence E10a (auto_cli model vs jsonargparse._cli) disagrees",
                                   json.dumps({"diff": d, "argv": argv, "case": case, "module": tree_src(case["tree"])}, ensure_ascii=True)[:1900])
     return n_bad_corr
+
+
+def exhaustive_small(max_params):
+    import itertools as it
+
+    shapes = [(k, d, t) for k in ("pk", "ko") for d in (False, True) for t in ("int", "optint")]
+    sigs = [[]]
+    for n in range(1, max_params + 1):
+        for combo in it.product(shapes, repeat=n):
+            ps = [{"name": ["alpha", "beta"][i], "kind": k, "type": t, "default": (1 if d else None)} for i, (k, d, t) in enumerate(combo)]
+            pk = [p for p in ps if p["kind"] == "pk"]
+            ko = [p for p in ps if p["kind"] == "ko"]
+            if [p["default"] is None for p in pk] != sorted([p["default"] is None for p in pk], reverse=True):
+                continue                     # python syntax: a parameter without default after one with default
+            sigs.append(pk + ko)
+    cases, idx = [], 0
+    for sig in sigs:
+        idx += 1
+        vis = [p for p in sig if visible(p)]
+        req = [p for p in vis if not eff_default(p)[0]]
+        opt = [p for p in vis if eff_default(p)[0]]
+        assigns = []
+        for r in range(len(opt) + 1):
+            for sub in it.combinations(opt, r):
+                assigns.append({p["name"]: (2 if p["type"] == "int" else 1) for p in list(req) + list(sub)})
+        f = {"kind": "func", "name": "e%d" % idx, "sig": sig}
+        k = {"kind": "cls", "name": "E%d" % idx, "init": sig, "methods": [{"name": "fit", "sig": sig}, {"name": "stop", "sig": []}]}
+        for a in assigns:
+            for ch in ("argv", "config", "mixed"):
+                for as_pos in (True, False):
+                    cases.append({"tree": {"comp": f}, "path": [], "method": None, "top": a, "sub": {}, "channel": ch, "as_pos": as_pos})
+                    cases.append({"tree": {"comp": k}, "path": [], "method": "fit", "top": a, "sub": a, "channel": ch, "as_pos": as_pos})
+        for p in req:
+            a = {q["name"]: 2 for q in req if q is not p}
+            cases.append({"tree": {"comp": f}, "path": [], "method": None, "top": a, "sub": {}, "channel": "argv", "as_pos": True, "missing": True})
+    return cases
 
 
 def vocab_cases():
@@ -965,7 +1003,7 @@ def run(ctx: Ctx):
         "generated parameter names avoid the CLI's own keys and prefixes of two parent options (open findings); those are covered by the fixed-seed vocabulary sweep",
         "docstrings, coroutines, properties, positional-only and untyped parameters are outside",
     ]
-    ctx.lean_build()
+    ctx.lean_build(extractors=["cli_tables"])
     tmp = tempfile.mkdtemp(prefix="c12cfg_")
     try:
         from ..lib import corpus as corpus_mod
@@ -974,7 +1012,7 @@ def run(ctx: Ctx):
         bad = run_cases(ctx, corpus_cases, "corpus", tmp)
 
         # generated trees
-        n_trees = ctx.budget(60, 600) * (2 if ctx.search_boost > 1 else 1)
+        n_trees = ctx.budget(150, 1800) * (2 if ctx.search_boost > 1 else 1)
         cases = []
         for i in range(n_trees):
             tree = gen_tree(ctx.rng, i)
@@ -983,6 +1021,12 @@ def run(ctx: Ctx):
         for c in cases[:3]:
             ctx.sample({"argv": build_argv(c, case_rng(c)), "module": tree_src(c["tree"])[len(PREAMBLE):][:600]})
         bad += run_cases(ctx, cases, "generated", tmp)
+
+        # exhaustive small scope: every signature of up to 1 (quick) / 2 (thorough) parameters over kind x default x
+        # {int, Optional[int]}, as a function and as constructor + method, every assignment, every channel
+        ex = exhaustive_small(2 if ctx.thorough else 1)
+        bad += run_cases(ctx, ex, "exhaustive", tmp)
+        ctx.extra["exhaustive_small_signatures"] = {"max_params": 2 if ctx.thorough else 1, "cases": len(ex)}
 
         # the CLI's own vocabulary, fixed seed
         vc = vocab_cases()
